@@ -579,6 +579,10 @@ func (p *Program) effectsPass(fn *ssa.Function, e *effectSet) {
 			case *ssa.MapUpdate:
 				mt := t.Map.Type().Underlying().(*types.Map)
 				e.keys[mapPrefix(mt)] = true
+			case *ssa.Defer:
+				if sc := t.Call.StaticCallee(); sc != nil && (strings.HasPrefix(sc.String(), "(*sync.Mutex).") || strings.HasPrefix(sc.String(), "(*sync.RWMutex).")) {
+					e.keys["X:held"] = true
+				}
 			case *ssa.Send:
 				e.keys["X:sends"] = true
 			case *ssa.Select:
@@ -616,6 +620,9 @@ func (p *Program) effectsPass(fn *ssa.Function, e *effectSet) {
 				case *ssa.Function:
 					if f == fn {
 						continue
+					}
+					if strings.HasPrefix(f.String(), "(*sync.Mutex).") || strings.HasPrefix(f.String(), "(*sync.RWMutex).") {
+						e.keys["X:held"] = true
 					}
 					if c := p.Contracts[funcKey(f)]; c != nil && c.HasMod && false {
 						continue
